@@ -219,4 +219,6 @@ func genC03(g *Gen) {
 	c03GenChild(g)
 	// (6) widening: from a key to its index, PathOf then PathToIndex(Loose) (c03key.go)
 	c03GenKey(g)
+	// (7) sessions: several lookups on one mask in one process (c03session.go)
+	c03GenSession(g)
 }
